@@ -70,5 +70,7 @@ fn run(args: &[String]) {
         runner.run_steps(&steps);
         log.emit(json!({"ev": "end", "id": sc["id"], "index": i}));
     }
-    tree::remove_tree(&work);
+    if std::env::var("CV_KEEP").is_err() {
+        tree::remove_tree(&work);
+    }
 }
